@@ -46,6 +46,62 @@ def resolver_fixture():
     x = r.cls('cirq.ops.common_gates.XPowGate')
     assert [c.name for c in r.mro(x)][:3] == ['XPowGate', 'EigenGate', 'Gate']
 
+def general_fixture():
+    """every general rule must fire on its positive example and stay silent on the twin (the rules have no violation on the real tree)"""
+    from sa import report
+    from sa.props import general
+    bad = '''
+def make(a, opt=None):
+    return (a, opt)
+
+def pick(kind, a, opt=None):
+    if kind:
+        return make(a, opt=opt)
+    return make(a)
+
+def wrap(a, opt=None):
+    return make(a)
+
+def label(qubits, rates, data, table, key):
+    qs = set(qubits)
+    out = dict(zip(qs, rates))
+    for i, q in enumerate(sorted(qubits)):
+        out[q] = data[:, i]
+    return out, table.get(key) or table.get(str(key))
+'''
+    good = '''
+def make(a, opt=None):
+    return (a, opt)
+
+def pick(kind, a, opt=None):
+    if kind:
+        return make(a, opt=opt)
+    return make(a, opt)
+
+def wrap(a, opt=None):
+    return make(a, opt=opt)
+
+def label(qubits, rates, data, table, key):
+    qs = list(qubits)
+    out = dict(zip(qs, rates))
+    for i, q in enumerate(qubits):
+        out[q] = data[:, i]
+    v = table.get(key)
+    return out, table.get(str(key)) if v is None else v
+'''
+    rel = 'cirq-core/cirq/work/zz_fixture.py'
+    base = core.Repo()
+    for src, want in ((bad, {'z_fwd': 1, 'z_drop': 1, 'z_pair': 2, 'z_get': 1}), (good, {})):
+        r = core.Repo(overlay={rel: src}, base=base)
+        ctx = report.Ctx('C18', 'quick', r)
+        general.apply(ctx, 'C18')
+        got = {}
+        for v in ctx.violations:
+            if 'zz_fixture' in v['key']:
+                got[v['rule'].split('.')[1]] = got.get(v['rule'].split('.')[1], 0) + 1
+        assert got == want, (got, want)
+
 walker_fixture()
 resolver_fixture()
+general_fixture()
 print('sa selftest ok')
